@@ -28,7 +28,8 @@ CONN_THOROUGH = CONN_QUICK + [("tls", 4, 2, 2, 8, "after"), ("gm", 4, 1, 2, 8, "
 # (mode, clients, handshakes per client, rotations)
 # several handshakes of every client fall between two rotations: the first of them offers a ticket under the OLD key, and
 # only an installation that keeps the old key in force at every instant lets it resume
-CFG_QUICK = [("tls", 5, 24, 7), ("gm", 5, 24, 7), ("tls", 4, 20, 4), ("gm", 6, 12, 3)]
+# "+rand": the rotations happen inside handshakes, when the server draws a ticket's IV from Config.Rand
+CFG_QUICK = [("tls", 5, 24, 7), ("gm", 5, 24, 7), ("tls", 4, 20, 4), ("gm", 6, 12, 3), ("tls+rand", 4, 24, 7), ("gm+rand", 4, 24, 7)]
 CFG_THOROUGH = CFG_QUICK + [("tls", 7, 16, 4), ("gm", 7, 16, 4), ("tls", 3, 60, 19), ("gm", 3, 60, 19), ("tls", 6, 30, 9), ("gm", 6, 30, 9)]
 CFGT_CFG = """SPECIFICATION TraceSpec
 CONSTANTS
